@@ -443,6 +443,11 @@ pub fn long_tokens() -> Vec<Case> {
 pub fn all() -> Vec<Case> {
     let mut v = cyclic_types();
     v.extend(long_tokens());
+    // literal decoding errors whose location is `base + range` over decoded pieces: brace escapes x character
+    // widths x every fatal escape error x what follows / precedes the f-string part
+    v.extend(super::escapes::representatives());
+    // every stage's report for a text embedded in a host file at line N (`SourceFile::location_offset`)
+    v.extend(super::escapes::line_offsets());
     // the type checker's error paths: declarations of every arity (none included) × every use,
     // and every REGISTERED function (hook `runtime_functions`) with receiver syntax on every kind of receiver
     v.extend(super::typeerrors::degenerate());
